@@ -138,6 +138,10 @@ static void gen_c12(Plan& p, Rng& r) {
             o.n["oflags"] = of; o.n["fdflags"] = r.below(5) == 0 ? 1 : 0;
             static const uint64_t rs[] = {R_READ, R_WRITE, R_READ | R_WRITE, R_READ | R_WRITE, R_READ | R_WRITE | R_SEEK | R_TELL | R_FDSTAT};
             o.n["rights"] = (int64_t)rs[r.below(5)];
+            // directories opened with and without the DIRECTORY flag (open("sub", O_RDONLY) is a valid way to get a directory handle) and
+            // opens relative to such handles
+            if (r.below(6) == 0) { o.path = r.below(3) ? "sub" : "."; o.n["oflags"] = r.below(2) ? 2 : 0; o.n["fdflags"] = 0; o.n["rights"] = (int64_t)R_READ; }
+            else if (r.below(4) == 0) { o.n.erase("dirfd"); o.n["dirfd_dir"] = r.below(6); if (r.below(2)) o.path = pick(r, std::vector<std::string>{"f3", "new", "f0", "sub/f3"}); }
             if (r.below(6) == 0) o.n["abs"] = 1;
             p.ops.push_back(o);
         } else if (k < 62) {
